@@ -274,9 +274,44 @@ fn gen_assoc_bound_predicates<'a>(
                 parse_quote! { #param_ident: #(#trait_bounds)+* }
             }
         })
+        .chain(
+            // NOTE: Params of the impl signature that aren't dispatched on keep their `?Sized`
+            assoc_bounds
+                .unsized_params
+                .iter()
+                .filter(|&unsized_param| {
+                    let is_dispatched_on = assoc_bounds
+                        .idents()
+                        .any(|((param_ident, _), _)| param_ident == unsized_param);
+
+                    !is_dispatched_on && is_signature_param(example_impl, unsized_param)
+                })
+                .map(|unsized_param| parse_quote! { #unsized_param: ?Sized })
+                .collect::<Vec<syn::WherePredicate>>(),
+        )
         .chain(core::iter::once({
             parse_quote! { Self: #helper_trait_bound }
         }))
+}
+
+/// Returns `true` if the given bounded type is a param found in the trait or self type of the impl
+fn is_signature_param(example_impl: &ItemImpl, param: &Bounded) -> bool {
+    struct Visitor<'a>(&'a syn::Type, bool);
+
+    impl Visit<'_> for Visitor<'_> {
+        fn visit_type(&mut self, node: &syn::Type) {
+            self.1 |= node == self.0;
+            syn::visit::visit_type(self, node);
+        }
+    }
+
+    let mut visitor = Visitor(&param.0, false);
+    if let Some((_, trait_, _)) = &example_impl.trait_ {
+        visitor.visit_path(trait_);
+    }
+    visitor.visit_type(&example_impl.self_ty);
+
+    visitor.1 && matches!(&param.0, syn::Type::Path(ty) if ty.path.get_ident().is_some())
 }
 
 impl VisitMut for ImplItemResolver {
